@@ -69,6 +69,26 @@ def _single_assign_env(fn):
     return {k: v for k, v in env.items() if count[k] == 1}
 
 
+class NoPerSampleKey(Exception):
+    """The writer no longer groups samples by a per-sample key function."""
+
+    def __init__(self, m, wf):
+        Exception.__init__(self, "no per-sample grouping key")
+        self.m = m
+        self.wf = wf
+
+
+def _no_key_violation(r, e):
+    uses_ts = "file_ts" in ast.unparse(e.wf) or "file_basename" in ast.unparse(e.wf)
+    if not uses_ts:
+        raise AnalysisError("%s._sample_group_generator no longer derives file names (anchor vanished)" % W)
+    r.violation(e.m.rel, W + "._sample_group_generator", "samples are not grouped by itertools.groupby(samples, <placement formula>)",
+                "the file of each individual sample is no longer computed from that sample's own index with the formula the reader "
+                "uses (floor(k*d/(n*cadence))): writer and reader cannot be shown to agree on samples at file boundaries",
+                line=e.wf.lineno)
+    return r
+
+
 def placement_exprs(repo=None):
     """(module, writer key expr + env, reader start_ts expr + env)"""
     m = pyfront.mod("digital_metadata", repo)
@@ -79,7 +99,7 @@ def placement_exprs(repo=None):
                 and isinstance(c.args[1], ast.Lambda):
             key = c.args[1]
     if key is None:
-        raise AnalysisError("%s._sample_group_generator: itertools.groupby(samples, lambda ...) not found" % W)
+        raise NoPerSampleKey(m, wf)
     rf = m.fn(R + "._get_file_list")
     starts = [n for n in pyfront.walk_no_nested(rf) if isinstance(n, ast.Assign) and isinstance(n.targets[0], ast.Name)
               and n.targets[0].id in ("start_ts", "end_ts")]
@@ -90,7 +110,10 @@ def placement_exprs(repo=None):
 
 def r1_exact_placement(repo=None, rid="C13.R1"):
     r = Rule(rid, "metadata file placement uses exact integer arithmetic in writer and reader (float taint)")
-    m, wf, key, rf, starts = placement_exprs(repo)
+    try:
+        m, wf, key, rf, starts = placement_exprs(repo)
+    except NoPerSampleKey as e:
+        return _no_key_violation(r, e)
     tw = pytaint.Taint(wf, float_attrs=FLOAT_ATTRS)
     kt = tw.expr(key.body)
     qn = W + "._sample_group_generator"
@@ -120,7 +143,10 @@ def r1_exact_placement(repo=None, rid="C13.R1"):
 
 def r2_one_formula(repo=None):
     r = Rule("C13.R2", "writer and reader map a sample index to its file with the same formula")
-    m, wf, key, rf, starts = placement_exprs(repo)
+    try:
+        m, wf, key, rf, starts = placement_exprs(repo)
+    except NoPerSampleKey as e:
+        return _no_key_violation(r, e)
     wenv = _single_assign_env(wf)
     renv = _single_assign_env(rf)
     # writer: file index = key(s); file_ts = file_idx * cadence
@@ -169,7 +195,9 @@ def r2_one_formula(repo=None):
 
 def r3_format_agreement(repo=None):
     r = Rule("C13.R3", "writer and reader agree on metadata file and sub-directory name formats; both fit the listing grammar")
-    m, wf, key, rf, starts = placement_exprs(repo)
+    m = pyfront.mod("digital_metadata", repo)
+    wf = m.fn(W + "._sample_group_generator")
+    rf = m.fn(R + "._get_file_list")
     def fmts(fn):
         f1 = [n.left.value for n in ast.walk(fn) if isinstance(n, ast.BinOp) and isinstance(n.op, ast.Mod)
               and isinstance(n.left, ast.Constant) and isinstance(n.left.value, str) and "@" in n.left.value]
